@@ -46,6 +46,46 @@ target(B + "_ensure_fallback_inventories", locals=dict(missing_keys=Seq(MKEY), f
        equivalent_mutants={r"negate@.*supports_chks": "which formats are refused outright: refusing a commit is the safe direction"},
        note="a commit to a stacked repository proceeds only with every parent inventory present locally")
 
-undecided("get_missing_parent_inventories and GCRepositoryPackCollection._check_new_inventories (the checks that refuse an incomplete write group "
+# ---- GCRepositoryPackCollection._check_new_inventories, the final step (block): every text key referenced by the new inventories
+#      (collected into text_keys by the CHK difference walk just before) is looked up in the stacked repository's OWN text index, and
+#      any that is absent is reported as a problem (which makes commit_write_group refuse the write group: C06)
+TKEY = Tup(BYTES, BYTES)
+LocalTexts = ufunc("LocalTexts", SetS(TKEY))        # text keys present in the repository itself (no fallbacks)
+assumed("no_fallback_texts_index.get_parent_map", pure=True, result=MapS(TKEY, ANY),
+        ensures=lambda c: forall([TKEY], lambda k: In(k, c.result) == And(In(k, c.args[0]), In(k, LocalTexts()))), raises={"Exception": None})
+pure("sorted")
+target("breezy/bzr/groupcompress_repo.py::GCRepositoryPackCollection._check_new_inventories",
+       block=(r"^\s*present_text_keys = no_fallback_texts_index\.get_parent_map\(text_keys\)", r"(?m)^\s*if missing_text_keys:"),
+       params=dict(text_keys=SetS(TKEY), problems=Seq(STR), no_fallback_texts_index=ANY), locals=dict(missing_text_keys=SetS(TKEY)),
+       ensures={"a_referenced_text_that_is_not_local_is_reported": lambda c: (Len(c.problems) == Len(c.old.problems) + 1) == exists(
+                    [TKEY], lambda k: And(In(k, c.old.text_keys), Not(In(k, LocalTexts())))),
+                "nothing_else_is_reported_here": lambda c: Or(c.problems == c.old.problems, Len(c.problems) == Len(c.old.problems) + 1)},
+       raises={"Exception": True}, canary=lambda c: c.problems == c.old.problems,
+       note="block: the local-texts check of a write group into a (stacked) 2a repository")
+
+
+@extra_check
+def text_keys_reach_the_lookup_unfiltered(repo):
+    """census: between the CHK walk that fills text_keys and the lookup above, text_keys is bound exactly once (to the empty set that the
+    walk fills) - nothing narrows or replaces the set of referenced texts before it is checked"""
+    import ast as _ast
+    tree = _ast.parse(open(repo + "/breezy/bzr/groupcompress_repo.py").read())
+    for n in _ast.walk(tree):
+        if isinstance(n, _ast.FunctionDef) and n.name == "_check_new_inventories":
+            binds = [t for a in _ast.walk(n) if isinstance(a, (_ast.Assign, _ast.AugAssign, _ast.AnnAssign))
+                     for t in (a.targets if isinstance(a, _ast.Assign) else [a.target]) if isinstance(t, _ast.Name) and t.id == "text_keys"]
+            muts = [c_ for c_ in _ast.walk(n) if isinstance(c_, _ast.Call) and isinstance(c_.func, _ast.Attribute)
+                    and isinstance(c_.func.value, _ast.Name) and c_.func.value.id == "text_keys"
+                    and c_.func.attr not in ("difference",)]
+            if len(binds) != 1 or muts:
+                from pyvc.state import SpecDrift
+                raise SpecDrift("_check_new_inventories binds or mutates text_keys other than through the CHK walk (%d bindings, %d mutating calls)"
+                                % (len(binds), len(muts)))
+            return
+    from pyvc.state import SpecDrift
+    raise SpecDrift("_check_new_inventories not found")
+
+
+undecided("get_missing_parent_inventories and the earlier steps of GCRepositoryPackCollection._check_new_inventories (the checks that refuse an incomplete write group "
           "after push/fetch into a stacked repository): not under contract in this build; exercised natively by the replay scenarios")
 undecided("that the text keys enumerated through the external CHK difference are all texts that differ from the parents; everything over the smart server")
